@@ -67,6 +67,7 @@ func units(thorough bool) []unit {
 	if thorough {
 		tier = 1
 	}
+	quickEmpties = !thorough
 	var out []unit
 	for _, p := range pipelines(2, tier) {
 		tail := len(p.stages) - 1
@@ -84,7 +85,7 @@ func units(thorough bool) []unit {
 		tail := len(p.stages) - 1
 		for i := range shs {
 			s := &shs[i]
-			core := s.cmp == nil && (s.vecFn == "" || s.vecFn == "sum" || s.vecFn == "count") &&
+			core := s.cmp == nil && (s.vecFn == "" || s.vecFn == "sum") &&
 				(s.vgroup == nil || (!s.vgroup.Without && !s.vgroup.Suffix))
 			switch {
 			case tail == 0 && thorough:
@@ -208,6 +209,9 @@ func forEachCase(u *unit, fn func(seq int, sc *scope, fr framing) bool) error {
 		if u.level == 0 && !(strings.HasPrefix(db.name, "odd_") || db.name == "big" || di%7 == 3) {
 			continue
 		}
+		if quickEmpties && u.level == 2 && len(u.pipe.stages) > 1 && dbEntries(db) == 4 {
+			continue // quick tier: the 4-entry sub-databases (80 framings each) only for the head-only pipelines
+		}
 		dirs := []bool{false, true}
 		if u.kind == "log" && (u.level == 0 || (u.level == 2 && di%4 != 1 && !strings.HasPrefix(db.name, "odd_"))) {
 			// log queries: the direction only decides the arrival order; the oldest-first order is run on a
@@ -279,6 +283,14 @@ func forEachCase(u *unit, fn func(seq int, sc *scope, fr framing) bool) error {
 		}
 	}
 	return nil
+}
+
+func dbEntries(db *database) int {
+	n := 0
+	for _, s := range db.streams {
+		n += len(s.Entries)
+	}
+	return n
 }
 
 func dedupe(in []int) []int {
